@@ -184,6 +184,7 @@ class HistRun:
             for k in ("restart", "evict", "clock"):
                 self.weights[k] = 0
         self.digest = hashlib.sha256()
+        self.digest_hi = hashlib.sha256()
         self.step_no = -1
         self.names_mode = cfg.get("names", "simple")
         self.uid_pool = ["uid-1", "uid-2", "uid-3", "UID-1", "uid 2", "u,3;x"]
@@ -215,7 +216,18 @@ class HistRun:
         self.violations.append(viol(prop, oracle, self.step_no, detail, **sig))
 
     def log(self, *parts):
+        import os
+
+        d = os.environ.get("XSIM_DUMP")
+        if d:
+            with open(os.path.join(d, self.tag + ".log"), "a") as f:
+                f.write("|".join(str(p) for p in parts) + "\n")
         self.digest.update(("|".join(str(p) for p in parts) + "\n").encode("utf-8", "replace"))
+        if parts and parts[0] == "req":
+            # fs event counters and the order of elements inside multistatus
+            # bodies depend on hash order inside dulwich / ElementTree
+            parts = parts[:-2] if (parts[3] == 207 or (parts[3] or 0) >= 500) else parts[:-1]
+        self.digest_hi.update(("|".join(str(p) for p in parts) + "\n").encode("utf-8", "replace"))
 
     # ------------------------------------------------------------------ boot
     def boot(self):
@@ -786,6 +798,7 @@ class HistRun:
             "cfg": self.cfg,
             "stats": self.stats,
             "digest": self.digest.hexdigest(),
+            "digest_hi": self.digest_hi.hexdigest(),
             "world": self.result_world,
             "nontrivial": self.nontrivial,
             "states": len(self.states),
